@@ -79,8 +79,10 @@ def make_cases(rng, tier):
             if how == "cancelled":
                 acts.append({"a": "direct", "method": m, "target": t, "host": "h.example", "cancelled": True, "quiet_ms": 15})
             else:
+                # requests which do not go to a shell endpoint are answered: patience for the first byte (a stalled machine is not a silent server)
+                shellish = re.match(r"^(https?://[^/]*)?/+(i|o|io|I|%69|%6f|i%2f|o%2f)([/?%]|$)", t) is not None
                 acts.append({"a": "raw", "req": H("%s %s HTTP/1.1\r\nHost: h.example\r\nConnection: close\r\nContent-Length: 0\r\n\r\n" % (m, t)),
-                             "quiet_ms": 15, "halfclose": how == "halfclose"})
+                             "quiet_ms": 15, "halfclose": how == "halfclose", "first_byte_ms": 1000 if shellish else 12000})
         cfg = {"fdir": "file" if mode == "filelink" else mode, "tree": tree if mode != "none" else [], "outside": outside}
         if mode in ("file", "filelink"):
             cfg["single"] = "a.txt"
